@@ -518,6 +518,10 @@ class spec_class:
                 attr_spec.is_masked = inspect.isfunction(
                     attr_value
                 ) or inspect.isdatadescriptor(attr_value)
+                if hasattr(attr_value, "__spec_class_invalidated_by__"):
+                    # (e.g. a `spec_property`, which declares its own
+                    # dependencies; they are picked up below)
+                    attr_spec.invalidated_by = None
             attr_spec.do_not_copy = do_not_copy
             attr_spec.owner = owner
             return self._finalise_attr_spec(
